@@ -42,6 +42,19 @@ Theorem C10_serializable_read : forall (log : list entry) (k : nat) (q : range_r
 Proof. exact serializable_read_is_prefix. Qed.
 Print Assumptions C10_serializable_read.
 
+(* the engine layer (storage/engine.go): on a leader or a follower, at any lag, a linearizable range read and every
+   read-only transaction is served from a state that includes every write acknowledged before it *)
+Theorem C10_engine_linearizable_read : forall (log : list entry) (applied committed a : nat) (is_leader : bool), (a <= committed)%nat ->
+  let k := serve_at (engine_range_path true is_leader) applied committed in
+  (a <= k)%nat /\ replica_state log k = fst (spec_entries (replica_state log a) (firstn (k - a) (skipn a log))).
+Proof. exact engine_linearizable_read. Qed.
+Print Assumptions C10_engine_linearizable_read.
+Theorem C10_engine_readonly_txn : forall (log : list entry) (applied committed a : nat) (is_leader : bool), (a <= committed)%nat ->
+  let k := serve_at (engine_txn_path is_leader) applied committed in
+  (a <= k)%nat /\ replica_state log k = fst (spec_entries (replica_state log a) (firstn (k - a) (skipn a log))).
+Proof. exact engine_readonly_txn. Qed.
+Print Assumptions C10_engine_readonly_txn.
+
 Example C10_example :
   let e := {| e_index := 9; e_leader := None; e_cmd := CTxn [] [] [] |} in
   ack_of [] e = {| r_value := 1; r_rev := 9; r_resps := []; r_data := true |}.
